@@ -86,22 +86,25 @@ var propTable = map[string]propInfo{
 // propRound7 extends the decided texts with the obligations added in round 7 (kept apart so that the
 // texts above stay diffable against the earlier rounds).
 var propRound7 = map[string]string{
-	"C01": " A state change that was committed to the meta store but could not be completed in memory marks the WAL failed under the lock, and every later append / state transaction tests that mark first (durable and in-memory state never diverge silently).",
-	"C02": " A failed mutator of the segment writer restores every field it touched, the write offset included.",
+	"C19": " No allocation in package migrate is sized by a caller-supplied integer without a dominating bound on both sides (every batch size).",
+	"C14": " Close loads the state it tears down while holding the write lock.",
+	"C08": " Stable operations write nothing into the WAL object (no mirror of stable values beside the MetaStore).",
+	"C01": " A state change that was committed to the meta store but could not be completed in memory marks the WAL failed under the lock, and every later append / state transaction tests that mark first (durable and in-memory state never diverge silently). Once the segment writer's pending buffer was emptied inside a mutator nothing is appended to it again and its array is not given away (the rollback snapshot aliases it).",
+	"C02": " A failed mutator of the segment writer restores every field it touched, the write offset included. The rollback snapshot of the pending buffer stays intact (no mid-batch re-use of the buffer, no hand-over to a pool).",
 	"C03": " Truncation keep/drop decisions equal the model on every path of the segment loop (also for the [sealed, empty tail] shape a completed recovery leaves).",
 	"C04": " The 'file does not exist' identity survives every layer up to Open's errors.Is test; a committed-but-incomplete state change stops the writer.",
-	"C05": " The truncation helpers' keep/drop decisions are checked against the model in terms of DeleteRange's own min/max, whatever convention the helper's argument follows. The bytes a frame read hands out start at file position offset + frame header length on every path, and pieces of a payload read separately join up (symbolic file position of every buffer).",
-	"C09": " The reader's frame payload is the byte range [offset + frame header length, ...) of the file on every path.",
+	"C05": " The truncation helpers' keep/drop decisions are checked against the model in terms of DeleteRange's own min/max, whatever convention the helper's argument follows. The bytes a frame read hands out start at file position offset + frame header length on every path, and pieces of a payload read separately join up (symbolic file position of every buffer). The index a batch entry is stored under is the raft.Log's own Index, never a position-derived value.",
+	"C09": " The reader's frame payload is the byte range [offset + frame header length, ...) of the file on every path. The pending buffer (which holds the file header of a fresh segment until the first commit) is never re-used or given away while a rollback snapshot aliases it.",
 	"C16": " The running (checksum, start index) pair is threaded through every entry of a batch: what the per-entry step updates in a by-value copy is handed back to the loop.",
 	"C06": " The functions reachable from GetLog / FirstIndex / LastIndex write only call-private or caller-owned memory (every store, map update, ReadAt / copy / PutUint destination is attributed through all call sites); everything else goes through sync/atomic.",
 	"C10": " On every path on which MetaStore.CommitState succeeded, the write lock is not released before the state is published or the WAL is marked failed, and the mark is tested under the lock before tail.Append and before every state transaction; lookups in the tail are bounded by the commit index (entries of a failed batch are never served).",
-	"C11": " A 64-bit unsigned file value converted to a signed integer needs a bound on both sides (a signed comparison with len() lets negative values through).",
-	"C12": " Every entry of a batch is encoded into storage allocated for it alone (LogEntry.Data never shares a growable backing array).",
-	"C13": " Tail truncation drops, on every path of its loop, exactly the segments that start at or above the first deleted index.",
-	"C15": " Every entry of a batch is encoded into storage of its own; an entry that does not fit the pooled read buffer is returned from the right file position (both read paths, symbolic).",
+	"C11": " A 64-bit unsigned file value converted to a signed integer needs a bound on both sides (a signed comparison with len() lets negative values through). bbolt's DB.Close is never called while a transaction begun on the same path is still open (it would wait for it forever, holding the file lock).",
+	"C12": " Every entry of a batch is encoded into storage allocated for it alone (LogEntry.Data never shares a growable backing array). The segment writer's pending buffer is never handed to the shared read-buffer pool.",
+	"C13": " Tail truncation drops, on every path of its loop, exactly the segments that start at or above the first deleted index. A committed-but-incomplete state change stops every later transaction (no commit from a stale in-memory state, which would persist an ID counter below IDs already used).",
+	"C15": " Every entry of a batch is encoded into storage of its own; an entry that does not fit the pooled read buffer is returned from the right file position (both read paths, symbolic). A read path that refuses an empty payload needs a write path that refuses it too (lower end of the accepted length range).",
 	"C17": " The leader's verification metadata is written into the entry the caller passed in (what raft replicates), never into a copy; every parameter of NewLogStore reaches its field on every path; the running state is threaded through every entry of a batch.",
 	"C18": " Constructor wiring: NewLogStore stores each of its parameters on every path that returns the store (or the parameter is nil there).",
-	"C20": " Every successful Set / SetUint64 / Get / GetUint64 / GetLog / StoreLog(s) call passes through exactly one increment of each of its per-call counters.",
+	"C20": " Every successful Set / SetUint64 / Get / GetUint64 / GetLog / StoreLog(s) call passes through exactly one increment of each of its per-call counters. head_truncations, tail_truncations and segment_rotations are incremented exactly at the commit point of the change they count: after CommitState succeeded, before anything else that can fail.",
 }
 
 func init() {
